@@ -36,8 +36,115 @@ pub(crate) fn edge_property_from_runs(
         if let Some(value) = run.edge_property(edge, key) {
             return Some(value.clone());
         }
+        if run.tombstoned_edges.contains(&edge) {
+            return None;
+        }
     }
     None
+}
+
+/// What the runs say about one property, looking newest to oldest.
+#[derive(Debug, Clone, PartialEq)]
+pub(crate) enum RunLookup {
+    /// a run holds the value
+    Found(PropertyValue),
+    /// a run removed it (or deleted the relationship it belonged to): older data is void
+    Removed,
+    /// no run mentions it: the property store decides
+    Unknown,
+}
+
+pub(crate) fn lookup_node_property_in_runs(
+    runs: &Arc<Vec<Arc<L0Run>>>,
+    node: InternalNodeId,
+    key: &str,
+) -> RunLookup {
+    for run in runs.iter() {
+        if let Some(deleted) = run.tombstoned_node_properties.get(&node)
+            && deleted.contains(key)
+        {
+            return RunLookup::Removed;
+        }
+        if let Some(value) = run.node_property(node, key) {
+            return RunLookup::Found(value.clone());
+        }
+    }
+    RunLookup::Unknown
+}
+
+pub(crate) fn lookup_edge_property_in_runs(
+    runs: &Arc<Vec<Arc<L0Run>>>,
+    edge: EdgeKey,
+    key: &str,
+) -> RunLookup {
+    for run in runs.iter() {
+        if let Some(deleted) = run.tombstoned_edge_properties.get(&edge)
+            && deleted.contains(key)
+        {
+            return RunLookup::Removed;
+        }
+        if let Some(value) = run.edge_property(edge, key) {
+            return RunLookup::Found(value.clone());
+        }
+        // Deleting a relationship deletes its properties: whatever older runs or the property
+        // store hold for this key belongs to a relationship that no longer exists.
+        if run.tombstoned_edges.contains(&edge) {
+            return RunLookup::Removed;
+        }
+    }
+    RunLookup::Unknown
+}
+
+/// Property keys of `node` whose newest mention in the runs is a removal.
+pub(crate) fn removed_node_property_keys(
+    runs: &Arc<Vec<Arc<L0Run>>>,
+    node: InternalNodeId,
+) -> BTreeSet<String> {
+    let mut resolved = BTreeSet::new();
+    let mut removed = BTreeSet::new();
+    for run in runs.iter() {
+        if let Some(deleted_keys) = run.tombstoned_node_properties.get(&node) {
+            for key in deleted_keys {
+                if resolved.insert(key.clone()) {
+                    removed.insert(key.clone());
+                }
+            }
+        }
+        if let Some(props) = run.node_properties(node) {
+            for key in props.keys() {
+                resolved.insert(key.clone());
+            }
+        }
+    }
+    removed
+}
+
+/// Like `removed_node_property_keys`; the flag is true when a run deleted the relationship
+/// itself, which voids everything older (including the property store).
+pub(crate) fn removed_edge_property_keys(
+    runs: &Arc<Vec<Arc<L0Run>>>,
+    edge: EdgeKey,
+) -> (BTreeSet<String>, bool) {
+    let mut resolved = BTreeSet::new();
+    let mut removed = BTreeSet::new();
+    for run in runs.iter() {
+        if let Some(deleted_keys) = run.tombstoned_edge_properties.get(&edge) {
+            for key in deleted_keys {
+                if resolved.insert(key.clone()) {
+                    removed.insert(key.clone());
+                }
+            }
+        }
+        if let Some(props) = run.edge_properties(edge) {
+            for key in props.keys() {
+                resolved.insert(key.clone());
+            }
+        }
+        if run.tombstoned_edges.contains(&edge) {
+            return (removed, true);
+        }
+    }
+    (removed, false)
 }
 
 pub(crate) fn merge_node_properties_from_runs(
@@ -90,6 +197,11 @@ pub(crate) fn merge_edge_properties_from_runs(
                     merged.insert(key.clone(), value.clone());
                 }
             }
+        }
+
+        // Properties written before the relationship was deleted died with it.
+        if run.tombstoned_edges.contains(&edge) {
+            break;
         }
     }
 
